@@ -213,6 +213,12 @@ def step (s : St) (line : String) : St × String :=
   | ["rlpfail", v2, raw, err] => ({ s with env := { s.env with rlpFail := (v2 == "1", raw, err) :: s.env.rlpFail } }, "ok")
   | ["qc", id] => ({ s with env := { s.env with qcs := (id.toUTF8.toList, true) :: s.env.qcs } }, "ok")
   | ["qc", id, "partial"] => ({ s with env := { s.env with qcs := (id.toUTF8.toList, false) :: s.env.qcs } }, "ok")
+  | ["cachekey", pk, msg, sig] =>
+    match ofHex pk, hx msg, ofHex sig with
+    | some p, some m, some g =>
+      let k := cacheKey p m g
+      (s, s!"len={k.length} h={toHex ((sha256 k).take 8)}")
+    | _, _, _ => (s, "bad-op")
   | ["tx", _path, cid, key, sig, newId] =>
     match s.contents.lookup cid, parseKey key, ofHex newId with
     | some c, some pk, some nid =>
